@@ -58,7 +58,7 @@ INSTRS = [
 
 class C02Gen(progen.ProgGen):
     def __init__(self, rng, uid="", features=None):
-        f = {"instr": 0.3, "cond_divmod": 0.35, "kk_in_index": 0.6, "stride_assert": 0.3}
+        f = {"instr": 0.3, "cond_divmod": 0.35, "kk_in_index": 0.6, "stride_assert": 0.3, "gen_names": 0.35}
         f.update(features or {})
         super().__init__(rng, uid, f)
         self.used_instr = False
@@ -105,8 +105,16 @@ class C02Gen(progen.ProgGen):
         return "\n".join(lines)
 
     def module(self, name="foo") -> str:
+        if self.p("gen_names"):
+            self.f["shadow"] = max(self.f["shadow"], 0.5)
         s = super().module(name)
-        return s.replace(progen.HEADER, HEADER, 1)
+        s = s.replace(progen.HEADER, HEADER, 1)
+        if self.f["shadow"] >= 0.5:
+            # user variables that look like the identifiers the backend generates when it disambiguates (i_1, i_2, ...)
+            # next to shadowed `i`s: new_varname must skip them
+            for old, new in (("j", "i_1"), ("k", "i_2"), ("ii", "i_1_1")):
+                s = re.sub(r"(?<![\w.])%s(?![\w])" % old, new, s)
+        return s
 
 
 class OpTimeout(Exception):
